@@ -525,7 +525,9 @@ def _gen_top(r, m, names, inners, bits_types):
                         m.features["virtual_deep_ref"] += 1
                 if v.value is None:
                     v.value, v.vtype = ("n", 7), "int"
-            if v.vtype == "int" and r.random() < 0.2:
+            # not on constants: a compile-time constant virtual field ignores [requires] (its generated
+            # Ok() is `return true`) — open finding C01 `requires-ignored-on-constant-virtual-field`
+            if v.vtype == "int" and v.value[0] != "n" and r.random() < 0.2:
                 v.requires = (r.choice(["<", ">=", "!="]), ("this",), ("n", r.choice([0, 3, 50, 300])))
                 m.features["requires_virtual"] += 1
             if r.random() < 0.2:
